@@ -58,6 +58,8 @@ pub struct Ext {
     /// Lines for a VAR_GLOBAL block (own or appended to the stgen CONFIGURATION).
     pub globals_text: Vec<String>,
     pub globals: Vec<VarSpec>,
+    /// Lines for a VAR_CONFIG block (printed after `PROGRAM XExt : XExt;`).
+    pub config_text: Vec<String>,
     /// Variables of XExt and of the extension FBs.
     pub pou_vars: Vec<(String, Vec<VarSpec>)>,
     pub allowed: Vec<Allowed>,
@@ -199,6 +201,19 @@ fn xsio() -> DTy {
     }
 }
 
+fn xsd() -> DTy {
+    DTy::Struct {
+        name: "XSd".into(),
+        fields: vec![
+            ("a".into(), DTy::Elem(Elem::Int)),
+            ("p".into(), pct()),
+            ("r".into(), DTy::Elem(Elem::Real)),
+            ("u".into(), DTy::Elem(Elem::UDInt)),
+            ("c".into(), col()),
+        ],
+    }
+}
+
 const TYPES: &str = "TYPE
   XPct : INT (0..100);
   XSmall : SINT (-5..5);
@@ -217,6 +232,15 @@ const TYPES: &str = "TYPE
     a : INT;
     b : SINT;
     r : REAL;
+  END_STRUCT;
+  XGain : REAL;
+  XTicks : UDINT;
+  XSd : STRUCT
+    a : INT := 5;
+    p : XPct := 50;
+    r : XGain := 2;
+    u : XTicks := 1000;
+    c : XCol := XCol#XBlue;
   END_STRUCT;
 END_TYPE
 ";
@@ -552,6 +576,232 @@ END_FUNCTION_BLOCK
         };
         b.s(format!("{head} xn := xn + DINT#1; END_FOR;"));
         x.labels.push(format!("for:{text}:pat{pat}"));
+        // A second loop whose ONLY write to the control variable is the initial assignment
+        // `control := start` (no increment follows): the start expression is an untyped (DINT)
+        // literal - the only start/TO/BY type other than the control variable's own that the
+        // checker accepts (E201) - so the FOR write path alone gives the value its tag.
+        if r.chance(3, 4) {
+            let kz = format!("xkz{j}");
+            b.var(&kz, text, match j {
+                8 => pct(),
+                _ => DTy::Elem(e),
+            }, None);
+            let fw = r.pick(if e.is_signed_int() { 5 } else { 4 });
+            match fw {
+                // zero-trip upwards
+                0 => b.s(format!("FOR {kz} := 10 TO 1 DO xn := xn + DINT#1; END_FOR;")),
+                // EXIT in the first iteration
+                1 => b.s(format!("FOR {kz} := 2 TO 5 DO EXIT; END_FOR;")),
+                // the first-iteration value is copied into a variable of the same type
+                2 => {
+                    let kc = format!("xkc{j}");
+                    b.var(&kc, text, match j {
+                        8 => pct(),
+                        _ => DTy::Elem(e),
+                    }, None);
+                    b.var(&format!("xkf{j}"), "BOOL", DTy::Elem(Elem::Bool), Some("TRUE"));
+                    b.s(format!(
+                        "FOR {kz} := 3 TO 4 DO IF xkf{j} THEN {kc} := {kz}; xkf{j} := FALSE; END_IF; END_FOR;"
+                    ));
+                }
+                // zero-trip with an untyped TO and BY as well
+                3 => b.s(format!("FOR {kz} := 7 TO 6 BY 2 DO xn := xn + DINT#1; END_FOR;")),
+                // zero-trip downwards (signed control variables)
+                _ => b.s(format!("FOR {kz} := 1 TO 10 BY -1 DO xn := xn + DINT#1; END_FOR;")),
+            }
+            x.labels.push(format!("for-first-write:{text}:{}", ["zero-trip", "exit", "copy", "zero-trip-by", "zero-trip-down"][fw]));
+        }
+    }
+    // loops inside an FB: RETURN in the first iteration, zero-trip, and a loop that runs
+    if r.chance(1, 2) {
+        let fj = r.pick(8);
+        let (fe, ft) = int_elems()[fj];
+        pous.push_str(&format!(
+            "FUNCTION_BLOCK XBfor
+VAR
+  k1 : {ft};
+  k2 : {ft};
+  k3 : XMyInt;
+  n : DINT;
+END_VAR
+  FOR k2 := 9 TO 2 DO n := n + DINT#1; END_FOR;
+  FOR k3 := 0 TO 2 DO n := n + DINT#1; END_FOR;
+  FOR k1 := 1 TO 3 DO RETURN; END_FOR;
+END_FUNCTION_BLOCK
+
+"
+        ));
+        x.pou_vars.push((
+            "XBfor".into(),
+            vec![
+                VarSpec { name: "k1".into(), ty: DTy::Elem(fe), retain: false },
+                VarSpec { name: "k2".into(), ty: DTy::Elem(fe), retain: false },
+                VarSpec { name: "k3".into(), ty: DTy::Elem(Elem::Int), retain: false },
+                VarSpec { name: "n".into(), ty: DTy::Elem(Elem::DInt), retain: false },
+            ],
+        ));
+        b.var("xbfor", "XBfor", DTy::Fb("XBfor".into()), None);
+        b.s("xbfor();");
+        x.labels.push(format!("for-first-write:{ft}:return-in-fb"));
+    }
+
+    // ---------------------------------------------------------------- declaration sites
+    // Every place where a declaration initialiser can appear, with alias / subrange / enum
+    // types and untyped literals: FB VAR_INPUT (left unassigned by the calls), FB VAR_OUTPUT,
+    // FB member VAR, nested FB instance, struct field defaults, FUNCTION input defaults,
+    // RETAIN, VAR_GLOBAL, a global FB instance, VAR_CONFIG. (VAR_IN_OUT cannot carry an
+    // initialiser; array / struct initialiser lists are rejected by the lowering.)
+    if r.chance(3, 4) {
+        let dinit = !open.derived_init;
+        if !dinit {
+            x.excluded.push(format!(
+                "{K_DINIT} (no initialiser on subrange / alias parameters and members)"
+            ));
+        }
+        let di = |s: &str| if dinit { format!(" := {s}") } else { String::new() };
+        pous.push_str(&format!(
+            "FUNCTION_BLOCK XBin
+VAR_INPUT
+  lim : XPct{};
+  w : UINT := 9;
+END_VAR
+VAR
+  m : XTicks{};
+END_VAR
+  m := m;
+END_FUNCTION_BLOCK
+
+FUNCTION_BLOCK XBd
+VAR_INPUT
+  lim : XPct{};
+  scale : XGain{};
+  budget : XTicks{};
+  ml : XMyLr{};
+  e : XCol := XCol#XBlue;
+  n : SINT := 5;
+  u : ULINT := 70000;
+  r : REAL := 3;
+END_VAR
+VAR_OUTPUT
+  ob : XTicks{};
+  op : XPct{};
+  oc : XCol := XCol#XGreen;
+  oi : INT := 11;
+  orr : LREAL := 2;
+END_VAR
+VAR
+  st : XPct{};
+  lr : XMyLr{};
+  sm : XSmall{};
+  byt : BYTE := 200;
+  sd : XSd;
+  inner : XBin;
+  cnt : DINT;
+END_VAR
+  cnt := cnt + DINT#1;
+  inner();
+END_FUNCTION_BLOCK
+
+FUNCTION XFd : XPct
+VAR_INPUT
+  a : XPct := INT#50;
+  g : XGain := REAL#2.0;
+  t : XTicks := UDINT#4;
+END_VAR
+  XFd := a;
+END_FUNCTION
+
+",
+            di("50"), di("9"),
+            di("50"), di("2"), di("1000"), di("3"),
+            di("1000"), di("7"),
+            di("7"), di("3"), di("-4"),
+        ));
+        let v = |n: &str, ty: DTy| VarSpec { name: n.into(), ty, retain: false };
+        x.pou_vars.push((
+            "XBin".into(),
+            vec![
+                v("lim", pct()),
+                v("w", DTy::Elem(Elem::UInt)),
+                v("m", DTy::Elem(Elem::UDInt)),
+            ],
+        ));
+        x.pou_vars.push((
+            "XBd".into(),
+            vec![
+                v("lim", pct()),
+                v("scale", DTy::Elem(Elem::Real)),
+                v("budget", DTy::Elem(Elem::UDInt)),
+                v("ml", DTy::Elem(Elem::LReal)),
+                v("e", col()),
+                v("n", DTy::Elem(Elem::SInt)),
+                v("u", DTy::Elem(Elem::ULInt)),
+                v("r", DTy::Elem(Elem::Real)),
+                v("ob", DTy::Elem(Elem::UDInt)),
+                v("op", pct()),
+                v("oc", col()),
+                v("oi", DTy::Elem(Elem::Int)),
+                v("orr", DTy::Elem(Elem::LReal)),
+                v("st", pct()),
+                v("lr", DTy::Elem(Elem::LReal)),
+                v("sm", small()),
+                v("byt", DTy::Bits(8)),
+                v("sd", xsd()),
+                v("inner", DTy::Fb("XBin".into())),
+                v("cnt", DTy::Elem(Elem::DInt)),
+            ],
+        ));
+        b.var("xbd", "XBd", DTy::Fb("XBd".into()), None);
+        b.var("xbd2", "XBd", DTy::Fb("XBd".into()), None);
+        b.var("xsd", "XSd", xsd(), None);
+        b.var("xsd2", "XSd", xsd(), None);
+        b.var("xrfd", "XPct", pct(), None);
+        // calls that leave inputs unassigned (they keep the declared initial value)
+        match r.pick(3) {
+            0 => b.s("xbd();"),
+            1 => b.s("xbd(n := SINT#3);"),
+            _ => b.s("xbd(lim := INT#20, e := XCol#XRed);"),
+        }
+        if r.flag() {
+            b.s("xbd2(scale := REAL#1.5);");
+        }
+        b.s("xsd2 := xsd;");
+        match r.pick(3) {
+            0 => b.s("xrfd := XFd();"),
+            1 => b.s("xrfd := XFd(g := REAL#1.0);"),
+            _ => b.s("xrfd := XFd(a := INT#3);"),
+        }
+        b.retain("xrt_p", "XPct", pct(), if dinit { Some("33") } else { None });
+        b.retain("xrt_g", "XGain", DTy::Elem(Elem::Real), if dinit { Some("2") } else { None });
+        if own_globals {
+            x.globals_text.push(format!("xg_pct : XPct{};", di("50")));
+            x.globals_text.push(format!("xg_gain : XGain{};", di("2")));
+            x.globals_text.push(format!("xg_ticks : XTicks{};", di("1000")));
+            x.globals_text.push("xg_fb : XBd;".into());
+            x.globals.push(v("xg_pct", pct()));
+            x.globals.push(v("xg_gain", DTy::Elem(Elem::Real)));
+            x.globals.push(v("xg_ticks", DTy::Elem(Elem::UDInt)));
+            x.globals.push(v("xg_fb", DTy::Fb("XBd".into())));
+            b.ext_decls.push("xg_fb : XBd;".into());
+            b.ext_decls.push("xg_pct : XPct;".into());
+            b.s("xg_fb(n := SINT#1);");
+            b.s("xrfd := xg_pct;");
+            // VAR_CONFIG initial values (re-applied by every restart)
+            b.var("xvc_p", "XPct", pct(), None);
+            b.var("xvc_r", "XGain", DTy::Elem(Elem::Real), None);
+            b.var("xvc_i", "SINT", DTy::Elem(Elem::SInt), None);
+            if dinit {
+                x.config_text.push("XExt.xvc_p : XPct := 42;".into());
+                x.config_text.push("XExt.xvc_r : XGain := 2;".into());
+            }
+            x.config_text.push("XExt.xvc_i : SINT := 6;".into());
+        }
+        if open.f8_arg && !implicit {
+            x.excluded.push(format!(
+                "{K_ARG} (FUNCTION input defaults are typed literals outside the implicit search)"
+            ));
+        }
+        x.labels.push("decl-sites".into());
     }
 
     // ---------------------------------------------------------------- FUNCTION / FB parameters
@@ -961,6 +1211,22 @@ END_FUNCTION_BLOCK
             allow(&mut x, pk("xz6"), "DINT", K_OUT, false);
             allow(&mut x, pk("xz7"), "DINT", K_ASSIGN, false);
             x.labels.push("f8:binding".into());
+        }
+        if open.f8_arg && r.chance(1, 2) {
+            pous.push_str(
+                "FUNCTION XFdz : INT
+VAR_INPUT
+  a : INT := 50;
+END_VAR
+  XFdz := a;
+END_FUNCTION
+
+",
+            );
+            b.var("xz12", "INT", DTy::Elem(Elem::Int), None);
+            b.s("xz12 := XFdz();");
+            allow(&mut x, pk("xz12"), "DINT", K_ARG, false);
+            x.labels.push("f8:param-default".into());
         }
         if open.f8_out && r.chance(1, 3) {
             pous.push_str(
